@@ -76,17 +76,27 @@ def check_c03(repo, tier):
                 ranges = ranges + [(0, -1)] + ([(k, k - 1) for k in range(1, d)] if tier == 'thorough' else [(1, 0)])
             elif which == 'ortho_right' and d >= 2:
                 ranges = ranges + ([(k, k + 1) for k in range(0, d - 1)] if tier == 'thorough' else [(0, 1)])
-            for (s_, e_), role, rank1 in itertools.product(ranges, ('op', 'vec'), (False, True)):
-                if rank1 and (d < 3 or role == 'op'):
+            for (s_, e_), role, rank1, mix in itertools.product(ranges, ('op', 'vec'), (False, True, 'all'), (None, 'complex cores followed by real ones', 'real cores followed by complex ones')):
+                if rank1 == 'all' and (mix or d < 2 or (s_, e_) != ranges[0]):
+                    continue          # every bond of rank one (product states, rank-one operators): once per routine, order and kind
+                if rank1 is True and (d < 3 or role == 'op'):
                     continue
-                scen = f'{which}(order={d}, {role}, start={s_}, end={e_}{", interior rank-1 bond" if rank1 else ""})'
+                if mix and (rank1 or d < 2 or (s_, e_) != ranges[0] or role == 'op'):
+                    continue          # mixed core dtypes (a complex scalar factor, diag(), a complex boundary core ...): once per routine and order
+                scen = f'{which}(order={d}, {role}, start={s_}, end={e_}{", all bonds of rank 1" if rank1 == "all" else (", interior rank-1 bond" if rank1 else "")}{", " + mix if mix else ""})'
                 entry = f'{TTM}.TT.{which}'
 
                 def body(sc):
                     ranks = None
-                    if rank1:
+                    if rank1 == 'all':
+                        ranks = [1] * (d + 1)
+                    elif rank1:
                         ranks = [1] + [sc.atom(f'ra{k}') if k != 1 else 1 for k in range(1, d)] + [1]
-                    a = sc.tt('a', d, role, square=False, ranks=ranks)
+                    dts = None
+                    if mix:
+                        h_ = (d + 1) // 2
+                        dts = (['complex'] * h_ + ['real'] * (d - h_)) if mix.startswith('complex') else (['real'] * h_ + ['complex'] * (d - h_))
+                    a = sc.tt('a', d, role, square=False, ranks=ranks, **({'dtype': dts} if dts else {}))
                     sc.inputs = (a,)
                     sc.old = list(a._attrs['cores'])
                     sc.old_ranks = list(a._attrs['ranks'])
@@ -148,6 +158,10 @@ def check_c03(repo, tier):
     return run
 
 
+def kw_rho(sc):
+    return getattr(sc, 'rho', None)
+
+
 def working_object(sc):
     """(the tensor-train object whose core list received the stores of this scenario, its cores before the first store)"""
     insts = {}
@@ -196,6 +210,7 @@ def check_c04(repo, tier):
     run.rule('D3', 'triple integrity at every truncation site of the repository: u columns, s and v rows are restricted by the same selector (shapes and bond identity agree), the '
              'remainder is diag(s) v (resp. u diag(s)) of that decomposition')
     run.rule('D4', 'threshold == 0 and max_rank == inf take no truncating branch (no selector applied to any factor)')
+    run.rule('D5', 'the truncating routines do not modify their option arguments (threshold, per-bond cap list) in place')
     run.trusted = ['thin SVD facts', 'NumPy transfer functions']
     orders = (2, 3, 4) if tier == 'thorough' else (2, 3)
     run.bounds = f'orders {orders}; cap as int, as per-bond list with inf entries; construction from cores and from a full array (complex)'
@@ -296,6 +311,9 @@ def check_c04(repo, tier):
                     if cut:
                         run.add(finding(entry, 'D4 exactness without truncation parameters', f'{scen}: a decomposition is truncated although threshold == 0 and max_rank == inf'))
     truncation_sites(run, repo, tier)
+    # D5: the option arguments (threshold, per-bond cap list) are not modified in place: a caps list that is overwritten with the ranks actually reached would cap a later,
+    # higher-rank tensor train below what the caller asked for
+    l2rules.plain_args_frame(run, 'C04', 'D5', repo, {f'{TTM}.TT.ortho', f'{TTM}.TT.ortho_left', f'{TTM}.TT.ortho_right', f'{TTM}.TT.__init__', 'utils.truncated_svd'} - {'utils.truncated_svd'})
     run.floor('obligations decided', run.obligations, 40)
     return run
 
@@ -400,6 +418,7 @@ def check_c05(repo, tier):
                     sc.inputs = (a,)
                     sc.old = list(a._attrs['cores'])
                     kw = {'threshold': 1e-8, 'max_rank': sc.atom('rho', free=True)} if trunc else {}
+                    sc.rho = kw.get('max_rank')
                     return sc.method(a, 'svd', index, ortho_l=ol, ortho_r=orr, **kw)
                 for ch, sc, res, exc in l2.explore(repo, body, typed=True):
                     l2rules.typing_obligations(run, 'C05', 'D1', repo, sc, scen, {TTM})
@@ -446,6 +465,11 @@ def check_c05(repo, tier):
                                 unknown.append(f'the last step stores into cores {slots}, not into the two central cores that are returned')
                             elif ms is None or len(ms) != 1 or ms[0][0] != 'S':
                                 unknown.append('the returned s is not recognisably the vector of singular values of a decomposition')
+                            elif trunc and ms[0][3] is None:
+                                bad.append('threshold and max_rank are given, but the singular values of the central decomposition are returned uncut (values below the relative '
+                                           'threshold stay in s and are inverted by pinv)')
+                            elif trunc and not l2rules.rank_le(sc, s.shape[0], kw_rho(sc)):
+                                bad.append(f'the central bond has rank {s.shape[0]}, which is not bounded by max_rank')
                             else:
                                 from .shape import sz_prod
                                 prod = mx.mul(mx.mul(A.unfolding_mx(uc[-1], sz_prod(uc[-1].shape[:-1])), ms), A.unfolding_mx(vc[0], vc[0].shape[0]))
